@@ -27,7 +27,9 @@ func init() {
 		Assumptions: []string{"allocation is read from runtime/metrics /gc/heap/allocs:bytes around the call: large (>=32KiB) allocations are visible immediately, which is what an input-controlled count produces",
 			"descriptors are the honest ones of the target type (hostile descriptors are out of scope)"},
 		Work: c04Work,
-		Post: func(a *mc.Agg) []string { return needDims(a, "gen:raw", "gen:valid", "gen:truncate", "gen:subst", "gen:token-replace", "gen:token-insert", "gen:token-strings", "path:unmarshal", "path:descriptor") },
+		Post: func(a *mc.Agg) []string {
+			return needDims(a, "gen:raw", "gen:valid", "gen:truncate", "gen:subst", "gen:token-replace", "gen:token-insert", "gen:token-strings", "path:unmarshal", "path:descriptor")
+		},
 	})
 }
 
